@@ -285,7 +285,17 @@ Definition state_of (tag : N) : session_state :=
   end.
 
 (* ---- the property ----------------------------------------------------------------------------- *)
-Definition reply_wf (r : reply) : bool := match r with RBad => false | _ => true end.
+(* "a well-formed reply or error": a server message of a known type with the member its type
+   names (anything else, e.g. {"id":..,"type":"error"} without the error member, is projected to
+   RBad: the server's own ServerMessage.CheckValid refuses such a message); an error carries a
+   code (documented format: "error": {"code": ..., "message": ...}) - an error with an empty code
+   tells the client nothing about what failed *)
+Definition reply_wf (r : reply) : bool :=
+  match r with
+  | RBad => false
+  | RError code _ => negb (String.eqb code "")
+  | _ => true
+  end.
 Definition is_error (r : reply) : bool := match r with RError _ _ => true | _ => false end.
 
 (* input that must have no effect: it fails validation, or it is anything but a
@@ -420,7 +430,7 @@ Fixpoint replies_eqb (a b : list reply) : bool :=
 Definition reply_allowed (id : string) (c : call) (r : reply) : bool :=
   match c, r with
   | CHello _ _ _, RHello i => String.eqb i id
-  | CHello _ _ _, RError _ i => String.eqb i id
+  | CHello _ _ _, RError code i => String.eqb i id && negb (String.eqb code "")   (* a refused hello is told why *)
   | CRoom _ _ _, RRoom i => String.eqb i id
   | CRoom _ _ _, RError _ i => String.eqb i id
   | CRoom _ _ _, REvent => true
